@@ -99,7 +99,8 @@ class Layouts:
 class World:
     """one symbolic LQ-IBE instance"""
 
-    def __init__(self, timeout_ms=60000):
+    def __init__(self, timeout_ms=60000, c_api=False):
+        self.c_api = c_api          # True: enter through the C interface (embedded_pairing_lqibe_*) instead of the C++ functions
         self.prog = prog()
         self.L = Layouts(self.prog)
         self.G = Grp(timeout_ms)
@@ -213,13 +214,18 @@ class World:
         return o
 
     def fn(self, name, args_rx=r"\(.*\)"):
+        if self.c_api:
+            return self.prog.find1("embedded_pairing_lqibe_" + name)
         return self.prog.find1(LQ + name + args_rx)
 
     # ---- the scheme's steps (each returns the objects it produced)
     def unmarshal_msk(self, bytes_obj):
-        f = self.prog.find1(r"bool " + LQ + r"MasterKey::unmarshal<true>\(.*\)")
         msk = Obj("msk", 32, "arg", 16)
-        ret = self.I.call_named(f, [Ptr(msk, 0), Ptr(bytes_obj, 0), 1])
+        if self.c_api:
+            ret = self.I.call_named(self.fn("masterkey_unmarshal"), [Ptr(msk, 0), Ptr(bytes_obj, 0), 1, 1])
+        else:
+            f = self.prog.find1(r"bool " + LQ + r"MasterKey::unmarshal<true>\(.*\)")
+            ret = self.I.call_named(f, [Ptr(msk, 0), Ptr(bytes_obj, 0), 1])
         if not (is_conc(ret) and ret == 1):
             raise Violation("masterkey-unmarshal", "MasterKey::unmarshal does not accept every 32-byte string", {})
         msk.const = True
@@ -279,7 +285,7 @@ class World:
 
     def solve(self, pc, conds, what):
         s = z3.Solver()
-        s.set("timeout", 60000)
+        s.set("timeout", 30000)
         for c in self.G.constraints + list(pc) + list(conds):
             s.add(c)
         r = s.check()
